@@ -350,10 +350,13 @@ fn dev_positions(tier: Tier, k: u16, lmax: usize) -> BTreeSet<usize> {
 fn run_stream(sh: &Shared, k: u16, shape: u8, lmax: usize) {
     let ctx = sh.ctx;
     let cap4 = 4 * tdm::derived_capacity(k);
-    let short = cap4 + 2;
+    // digests with a huge k (thorough extra) are observed at buffer boundaries and powers of two
+    // only, without deviations: one observation decodes up to 2k centroids
+    let lean = k > 1000;
+    let short = if lean { 64 } else { cap4 + 2 };
     let horizon = 2 * cap4 + 2;
     let devs = deviation_alphabet();
-    let positions = dev_positions(ctx.tier, k, lmax);
+    let positions = if lean { BTreeSet::new() } else { dev_positions(ctx.tier, k, lmax) };
     let mut e = Edges::new();
     let mut p = Pair::new(k);
     let mut steps = 0u64;
